@@ -12,7 +12,7 @@ import itertools
 ID = "C11"
 LEVEL = "exploration"
 RULE = ("random patterns over a Symbol model (Shelf -> Box/FancyBox -> Part/BigPart, scalar, reference, collection "
-        "and list-of-str attributes): per attribute one of {literal, literal on a collection, nested match (same or "
+        "and list-of-str attributes - literal, match_any and match_all on the latter too): per attribute one of {literal, literal on a collection, nested match (same or "
         "sub type), element pattern on a collection, match_any(list), match_all(list), match_any(Type)(...), select / "
         "select_any of inner parts}, 1-3 constrained attributes, nesting depth <=3, domains mixing all classes, "
         "distinct elements with equal attribute values and elements sharing one collection object.  Non-trivial = the "
@@ -29,7 +29,8 @@ def plan(tier):
     return {"cases": 3000 if tier == "quick" else 80000, "shards": 16, "case_timeout": 20, "shard_timeout": 3000,
             "min_nontrivial": 60,
             "min_counters": {"elements_compared": 500, "kind:lit": 300, "kind:match": 300, "kind:any": 200,
-                             "kind:all": 200, "kind:anymatch": 100, "selects_checked": 50}}
+                             "kind:all": 200, "kind:anymatch": 100, "selects_checked": 50,
+                             "builtin_collection_constraints": 100}}
 
 
 def setup(ctx):
@@ -72,7 +73,7 @@ def gen_part_pattern(rng, allow_empty=False):
 def gen_box_pattern(rng, world, depth, allow_select):
     attrs = {}
     n = len(world["parts"])
-    choices = ["label", "lid", "parts", "weight", "lid", "parts"] + (["tags"] if rng.random() < 0.25 else [])
+    choices = ["label", "lid", "parts", "weight", "lid", "parts"] + (["tags"] if rng.random() < 0.35 else [])
     rng.shuffle(choices)
     choices = list(dict.fromkeys(choices))
     for a in choices[:rng.choice([1, 2, 2, 3, 3, 4])]:
@@ -81,7 +82,9 @@ def gen_box_pattern(rng, world, depth, allow_select):
         elif a == "weight":
             attrs[a] = ["lit", rng.randint(0, 1)]
         elif a == "tags":
-            attrs[a] = ["lit", rng.choice("xyz")]
+            k = rng.random()
+            pool = [rng.choice("xyz") for _ in range(rng.randint(1, 3))]
+            attrs[a] = ["lit", rng.choice("xyz")] if k < 0.5 else ["anylit", pool] if k < 0.75 else ["alllit", pool]
         elif a == "lid":
             k = rng.random()
             if k < 0.6:
@@ -178,6 +181,10 @@ def build_kwargs(pat, mm, parts, M, selects, path):
             selects.append((path + (a,), sel))
             sel(**build_kwargs(c[1], mm, parts, M, selects, path + (a,)))
             kw[a] = sel
+        elif k == "anylit":
+            kw[a] = M.match_any(list(c[1]))
+        elif k == "alllit":
+            kw[a] = M.match_all(list(c[1]))
         elif k == "any":
             kw[a] = M.match_any([parts[i] for i in c[1]])
         elif k == "all":
@@ -219,6 +226,10 @@ def matches(obj, pat, mm, parts):
                 ok = True
             else:
                 ok = any(matches(x, c[1], mm, parts) for x in v) if isinstance(v, list) else matches(v, c[1], mm, parts)
+        elif k == "anylit":
+            ok = any(x in c[1] for x in v)
+        elif k == "alllit":
+            ok = set(v) == set(c[1])
         elif k in ("any", "select_any"):
             cand = {id(parts[i]) for i in c[1]}
             ok = any(id(x) in cand for x in v)
@@ -268,6 +279,8 @@ def any_values(o, pat, path=()):
         v = getattr(o, a, None)
         if c[0] in ("any", "select_any", "anymatch") and isinstance(v, list):
             out.add((path + (a,), tuple(id(x) for x in v)))
+        if c[0] == "anylit" and isinstance(v, list):
+            out.add((path + (a,), tuple(v)))          # value-equal lists of strings collapse as well
         if c[0] in ("match", "select", "anymatch") and v is not None:
             for x in (v if isinstance(v, list) else [v]):
                 out |= any_values(x, c[1], path + (a,))
@@ -297,7 +310,9 @@ def run(spec, ctx):
     pat = spec["pattern"]
     ks = kinds(pat, set())
     for k, a in ks:
-        C["kind:" + {"select": "match", "select_any": "any", "select_all": "all", "litobj": "lit"}.get(k, k)] += 1
+        C["kind:" + {"select": "match", "select_any": "any", "select_all": "all", "litobj": "lit", "anylit": "any", "alllit": "all"}.get(k, k)] += 1
+        if a == "tags":
+            C["builtin_collection_constraints"] += 1
     root_T = getattr(mm, pat["type"])
     exp = [o for o in dom if matches(o, pat, mm, parts)]
     exp_ids = {id(o) for o in exp}
@@ -375,13 +390,10 @@ def run(spec, ctx):
     if extra_problems or missing_problems or lost_parts:
         key = None
         if not extra_problems and not lost_parts:
-            if ("lit", "tags") in ks and not rows:
-                key = "literal-on-builtin-collection-is-equality"
-            else:
-                # the twin need not satisfy the rest of the pattern: the existential condition de-duplicates on its own
-                av = {id(o): any_values(o, pat) for o in dom}
-                if all(any(av[id(o)] & av[id(o2)] for o2 in dom if o2 is not o) for o in missing_problems):
-                    key = "match-any-collapses-equal-collections"
+            # the twin need not satisfy the rest of the pattern: the existential condition de-duplicates on its own
+            av = {id(o): any_values(o, pat) for o in dom}
+            if all(any(av[id(o)] & av[id(o2)] for o2 in dom if o2 is not o) for o in missing_problems):
+                key = "match-any-collapses-equal-collections"
         C["fail:" + (key or "UNEXPLAINED")] += 1
         detail = extra_problems[:2] + [f"missing elements {[idn.get(id(o), '?') for o in missing_problems][:4]}"] * bool(missing_problems) + lost_parts[:2]
         return {"status": "fail", "kind": "pattern-mismatch", "key": key, "detail": "; ".join(detail) + " | " + skeleton(pat)}
